@@ -65,6 +65,15 @@ def inject_cond(g, spec):
             out.append(("unknown pre-processor", {".".join([toks[0], "size", toks[1]]): v}))
             out.append(("pre-processor without callable", {".".join([toks[0], "length"]): v}))
         out.append(("four tokens", {k + ".x": v}))
+        # a malformed data-path spec as an ITEM of a list argument / a VALUE of a mapping argument
+        if isinstance(v, list) and toks[-1].lower() not in ("is_instance", "keys_is_instance") and "type" not in [t.lower() for t in toks[1:-1]] \
+                and "dtype" not in [t.lower() for t in toks[1:-1]]:
+            out.append(("malformed path item", {k: list(v) + [{"path": [{"type": "map_valu"}]}]}))
+            out.append(("malformed path item", {k: [{"path": 5}] + list(v)}))
+            out.append(("malformed path item", {k: list(v) + [{"path": [None]}]}))
+        if isinstance(v, dict) and v and toks[-1].lower() in ("in_range", "not_in_range", "equal_to_approx", "items_contain"):
+            kk = next(iter(v))
+            out.append(("malformed path value", {k: dict(v, **{kk: {"path": [{"type": "list_valu"}]}})}))
         out.append(("several keys", dict(spec, **{("value.truthy" if "value.truthy" not in spec else "value.falsy"): None})))
         if toks[-1].lower() in ("is_instance", "keys_is_instance"):
             out.append(("unknown type name", {k: ["int", "integer"]}))
@@ -241,7 +250,10 @@ def run(tier, seed, model_ok, spec_ok, replay=None):
             fn, _ = parsers[kind]
             if E.run_outcome(lambda: fn(copy.deepcopy(spec)))[0] != "ok":
                 continue
-            for label, bad in inj(g, spec)[: (3 if tier == "quick" else 20)]:
+            injected = inj(g, spec)
+            if tier == "quick" and len(injected) > 4:
+                injected = g.r.sample(injected, 4)       # every kind of injected error gets its share over the run
+            for label, bad in injected[:20]:
                 try_case(kind, bad, label, True)
             for _ in range(2 if tier == "quick" else 4):
                 m = spec
